@@ -189,7 +189,7 @@ class Gram(probe.Contract):
 # of the tensor it lands on vanishes identically it cannot find a single independent column and gives up with an exception.  That
 # is the documented limitation of the heuristic, not a statement of C15.  The hook below records, per hocur call, whether an
 # exactly-zero block was what made the column search come back empty; only then is the exception taken as a refusal.
-HOCUR_STATE = {'zero_block': False}
+HOCUR_STATE = {'zero_block': False, 'li': [], 'mv': []}
 
 
 def hocur_gave_up_on_zero_block(e):
@@ -201,6 +201,13 @@ def _li_cols_post(st, res, args, kwargs):
         m = np.asarray(args[0])
         if len(res) == 0 and m.size > 0 and not np.any(m):
             HOCUR_STATE['zero_block'] = True
+        # numerical rank of the sampled submatrix (first half sweep, one call per bond): what the random column choice left to find
+        tol0 = (kwargs.get('tol', args[1] if len(args) > 1 else None) == 0)
+        if tol0:  # the call inside the maximum-volume search: its argument is (kept columns) x (rows)
+            HOCUR_STATE['mv'].append(int(m.shape[0]))
+        else:
+            sv = np.linalg.svd(np.array(m, dtype=float), compute_uv=False) if m.size else np.zeros(0)
+            HOCUR_STATE['li'].append((int(np.sum(sv > 1e-10 * sv[0])) if sv.size and sv[0] > 0 else 0, len(res)))
     except Exception:
         pass
 
@@ -213,6 +220,8 @@ class Hocur(probe.Contract):
     def pre(self, args, kwargs):
         from .contracts_api import snapshot_plain
         HOCUR_STATE['zero_block'] = False
+        HOCUR_STATE['li'] = []
+        HOCUR_STATE['mv'] = []
         v = parse(['x', 'basis_list', 'ranks', 'repeats', 'multiplier', 'progress', 'string'], {'repeats': 1, 'multiplier': 10}, args, kwargs)
         return {'plain': snapshot_plain(args, kwargs), 'ranks': copy.deepcopy(v.get('ranks')), 'x': np.array(v['x'], copy=True)}
 
@@ -264,9 +273,20 @@ class Hocur(probe.Contract):
         got_r = list(res.ranks)
         if not all(got_r[k] >= true[k] for k in range(p + 2)):
             # the documented fallback: fewer linearly independent columns were found among the randomly chosen ones
+            # ("increase the multiplier").  That is what happened iff the sampled submatrix at some bond had a smaller numerical rank
+            # than the tensor's unfolding; a reduction although every sampled submatrix had full rank is not that fallback.
+            # Observed at the library's own column search (first half sweep, one search per bond): the number of columns it kept must
+            # be min(independent columns found, requested rank); then the reduction is explained by the sample.
+            li, mv = HOCUR_STATE['li'][:p], HOCUR_STATE['mv'][:p]
+            deficient = len(li) < p or len(mv) < p or all(mv[k] == min(li[k][1], req[k + 1]) for k in range(p))
             c.events['hocur_returned_reduced_ranks'] += 1
-            c.skip('hocur_returned_reduced_ranks')
+            if deficient:
+                c.skip('hocur_returned_reduced_ranks')
+                return
+            c.check(self.api, 'ranks_reduced_only_when_sampled_columns_are_deficient', False, ['snapshots=1' if m == 1 else 'snapshots>1'],
+                    {'true_ranks': true, 'requested': req, 'returned': got_r, 'sampled_submatrix_ranks_and_columns_found': li, 'columns_kept': mv}, prop=P)
             return
+        c.check(self.api, 'ranks_reduced_only_when_sampled_columns_are_deficient', True, ['snapshots=1' if m == 1 else 'snapshots>1'], prop=P)
         got = dense_cores(res.cores).reshape(want.shape)
         sc = max(float(np.linalg.norm(want)), 1e-300)
         err = float(np.linalg.norm(got - want)) / sc
